@@ -960,12 +960,13 @@ JTAGS = {
     53: 'a new covariance parameter is not named after the parameters of its two random variables',
     59: 'create_joint_distribution(rvs=None) did not select the etas in collection order',
     60: 'create_joint_distribution ended in an internal IndexError',
+    70: 'variance_parameters differs from model', 71: 'variance_parameters repeats a name or is not the set of variance symbols',
     54: 'names of the random variables not preserved', 55: 'a variance changed',
     57: 'split_joint_distribution dropped a variance parameter or kept an unused covariance parameter',
     58: 'create_joint_distribution changed the value of an existing parameter',
 }
-JCORR = (51, 52, 56)
-JORACLE = {53: (JCORR, 251, 'C11-CJD-COV-PARAM-MISNAMED'), 59: (JCORR, None, None), 60: (JCORR, None, None), 54: (JCORR, None, None), 55: (JCORR, None, None),
+JCORR = (51, 52, 56, 70)
+JORACLE = {53: (JCORR, 251, 'C11-CJD-COV-PARAM-MISNAMED'), 59: (JCORR, None, None), 60: (JCORR, None, None), 71: (JCORR, None, None), 54: (JCORR, None, None), 55: (JCORR, None, None),
            57: (JCORR, None, None), 58: (JCORR, None, None)}
 JIMPORTS = 'Base.PyData Base.Expr C11.Model C11.NumModel C11.JdModel C11.JdCheck'
 _JD_BASE = {}
@@ -984,7 +985,32 @@ def jd_base(kind, fix=()):
     return _JD_BASE[key]
 
 
+def gen_vp_dists(rng):
+    """Collections with symbolic entries only (optionally a literal 0 on a diagonal), incl. IOV-SAME layouts
+    sharing variance symbols: inputs for RandomVariables.variance_parameters."""
+    dists = gen_dists(rng, VARNAMES)
+    out = []
+    for d in dists:
+        ns = [d['name']] if d['k'] == 'N' else d['names']
+        e = gen_dist(rng, ns, mode='sym', level=d['level'])
+        if d['k'] == 'N' and isinstance(d.get('var'), str) and d['var'].startswith('OI_'):
+            e = dict(e, var=d['var'] if e['k'] == 'N' else [[d['var']]])      # keep shared IOV symbols
+        if d['k'] == 'J' and d['var'][0][0].startswith('OI_'):
+            e = dict(e, var=d['var'])
+        if rng.random() < 0.07:
+            if e['k'] == 'N':
+                e['var'] = '0'
+            else:
+                e['var'] = [row[:] for row in e['var']]
+                e['var'][0][0] = '0'
+        e['mean'] = '0' if e['k'] == 'N' else ['0'] * len(ns)
+        out.append(e)
+    return out
+
+
 def gen_jd_spec(rng):
+    if rng.random() < 0.3:
+        return {'kind': 'jd', 'base': 'none', 'ops': [], 'vp': gen_vp_dists(rng)}
     base = rng.choice(['pheno', 'pheno_s1', 'pheno_s1'])
     etas = ['ETA_CL', 'ETA_VC'] + (['ETA_S1'] if base == 'pheno_s1' else [])
     omegas = ['IIV_CL', 'IIV_VC'] + (['IIV_S1'] if base == 'pheno_s1' else [])
@@ -1022,6 +1048,30 @@ def observe_jd(spec):
     import pharmpy.model.random_variables as rvm
     from pharmpy.model import NormalDistribution
     from pharmpy.modeling import create_joint_distribution, split_joint_distribution
+    if 'vp' in spec:
+        im = impl()
+        rvs = im.RandomVariables.create([build_dist(d, im) for d in spec['vp']])
+        names = CNames()
+
+        def sym0(e):
+            return 'None' if e == 0 else f'(Some {names.p(e.name)})'
+        out = []
+        for d in rvs:
+            lev = ct.pos(level_id(d.level, names))
+            if isinstance(d, NormalDistribution):
+                out.append(f"(Normal {names.p(d.names[0])} {lev} {sym0(d.mean)} {sym0(d.variance)})")
+            else:
+                V, mu = d.variance, d.mean
+                rows = ct.lst([ct.lst([sym0(V[i, j]) for j in range(V.cols)]) for i in range(V.rows)])
+                out.append(f"(Joint {ct.lst([names.p(x) for x in d.names])} {lev} "
+                           f"{ct.lst([sym0(mu[i, 0]) for i in range(mu.rows)])} {rows})")
+        rt = ct.lst(out)
+        try:
+            vp = f"(Some {ct.lst([names.p(x) for x in rvs.variance_parameters])})"
+        except ValueError:
+            vp = 'None'
+        # no operation: split_joint_distribution of nothing is the identity in the model
+        return [f"(mkJCase {rt} [] (JSplit []) (Some ({rt}, [])) [] [] [] [] [] {fq(0.0001)} false {vp})"]
     model = jd_base(spec['base'], spec.get('fix', ()))
     ie = None
     if spec.get('ie'):
@@ -1120,7 +1170,8 @@ def observe_jd(spec):
         out = 'None' if after is None else f"(Some {ct.pair(rterm(after.random_variables), pterm(after))})"
         fixed = ct.lst([names.p(q.name) for q in before.parameters if q.fix])
         terms.append(f"(mkJCase {rb} {pb} {opt} {out} {ct.lst([ct.pair(fq(k), fq(v)) for k, v in sq.items()])}\n "
-                     f"{fixed} {ct.lst(ie_t)} {ct.lst(psd_t)} {ct.lst(rep_t)} {fq(0.0001)} {ct.boolean(internal)})")
+                     f"{fixed} {ct.lst(ie_t)} {ct.lst(psd_t)} {ct.lst(rep_t)} {fq(0.0001)} {ct.boolean(internal)} "
+                     f"(Some {ct.lst([names.p(x) for x in before.random_variables.variance_parameters])}))")
         if after is not None:
             model = after
     return terms
